@@ -199,6 +199,10 @@ def build(r):
         return Slice(*r[1:])
     if k == "count":
         return Count(r[1])
+    if k == "frgroups":
+        # the FillRequest adapter used as a run element (it has fill and request besides run): groups of n values
+        from lena.core import FillRequest
+        return FillRequest(StoreFilled(), bufsize=r[1], reset=True, buffer_input=True)
     if k == "runif":
         return RunIf(PREDS[r[1]], *[build(x) for x in r[2]])
     if k == "reverse":
@@ -373,6 +377,7 @@ def post_recipes():
         st.builds(lambda p: ["filter", p], st.sampled_from(sorted(PREDS))),
         st.builds(lambda a: ["slice"] + a, slice_args()),
         st.just(["reverse"]),
+        st.builds(lambda n: ["frgroups", n], st.integers(1, 3)),
     )
 
 
